@@ -28,24 +28,31 @@ class Sym:
 
 class App:
     """Uninterpreted application; args must already be canonical (Rat are canonicalised)."""
-    __slots__ = ('name', 'args', '_k')
+    __slots__ = ('name', 'args', '_k', '_ks', '_r', '_h')
 
     def __init__(self, name, args):
         self.name = name
         self.args = tuple(args)
         self._k = ('A', name, tuple(_ckey(a) for a in self.args))
+        self._ks = None
+        self._r = None
+        self._h = None
 
     def key(self):
         return self._k
 
     def __eq__(self, o):
-        return isinstance(o, App) and o._k == self._k
+        return self is o or (isinstance(o, App) and hash(self) == hash(o) and o._k == self._k)
 
     def __hash__(self):
-        return hash(self._k)
+        if self._h is None:
+            self._h = hash(self._k)
+        return self._h
 
     def __repr__(self):
-        return '%s(%s)' % (self.name, ', '.join(repr(a) for a in self.args))
+        if self._r is None:
+            self._r = '%s(%s)' % (self.name, ', '.join(repr(a) for a in self.args))
+        return self._r
 
 
 def _ckey(a):
@@ -59,11 +66,15 @@ def _ckey(a):
 
 
 def _akey(atom):
+    if isinstance(atom, App):
+        if atom._ks is None:
+            atom._ks = repr(atom._k)
+        return atom._ks
     return repr(atom.key())
 
 
 class Poly:
-    __slots__ = ('t',)
+    __slots__ = ('t', '_ck')
 
     def __init__(self, terms=None):
         self.t = {}
@@ -136,8 +147,11 @@ class Poly:
         return hash(self.canon_key())
 
     def canon_key(self):
-        return tuple(sorted(((tuple((_akey(a), p) for a, p in m), (c.numerator, c.denominator))
-                             for m, c in self.t.items())))
+        ck = getattr(self, '_ck', None)
+        if ck is None:
+            ck = self._ck = tuple(sorted(((tuple((_akey(a), p) for a, p in m), (c.numerator, c.denominator))
+                                         for m, c in self.t.items())))
+        return ck
 
     def atoms(self):
         s = set()
@@ -197,7 +211,7 @@ def _mulmono(m1, m2):
 
 
 class Rat:
-    __slots__ = ('n', 'd')
+    __slots__ = ('n', 'd', '_ck', '_rp')
 
     def __init__(self, n, d=None):
         if d is None:
@@ -276,8 +290,11 @@ class Rat:
         return hash(self.canon_key())
 
     def canon_key(self):
-        n, d = self._canon()
-        return ('R', n.canon_key(), d.canon_key())
+        ck = getattr(self, '_ck', None)
+        if ck is None:
+            n, d = self._canon()
+            ck = self._ck = ('R', n.canon_key(), d.canon_key())
+        return ck
 
     def _canon(self):
         n, d = self.n, self.d
@@ -291,9 +308,10 @@ class Rat:
         return self.n.atoms() | self.d.atoms()
 
     def __repr__(self):
-        if self.d.is_const():
-            return repr(self.n)
-        return '(%r)/(%r)' % (self.n, self.d)
+        r = getattr(self, '_rp', None)
+        if r is None:
+            r = self._rp = repr(self.n) if self.d.is_const() else '(%r)/(%r)' % (self.n, self.d)
+        return r
 
 
 def ZERO():
